@@ -77,12 +77,8 @@ def spline_eval(mod, kind, x, y, r, parsed, assume=(), periodic=0, qr=None):
 
 def agg_prove(ck, name, queries, TO, found, tag):
     """queries: [(assumptions, negated_goal)] -- all must be unsat; reported as one obligation"""
-    jobs = [(i, list(a) + list(g)) for i, (a, g) in enumerate(queries)]
-    out = smt.parallel_check(jobs, timeout_s=TO)
-    bad = [i for i in out if out[i][0] != 'unsat']
-    st = 'unsat' if not bad else ('sat' if any(out[i][0] == 'sat' for i in bad) else 'unknown')
-    ck.obligation('%s (%d path queries)' % (name, len(jobs)), st, sum(v[1] for v in out.values()), True, {'model': out[bad[0]][2]} if bad else None)
-    if st == 'sat': found.append((tag, name, out[[i for i in bad if out[i][0] == 'sat'][0]][2]))
+    st, mdl = smt.agg_core(ck, name, queries, TO)
+    if st == 'sat': found.append((tag, name, mdl))
     return st
 
 def generic_spline_clauses(ck, mod, kind, x, ysyms, parsed, TO, found, label, assume=(), periodic=0, qr_factory=None, c1=True):
